@@ -297,8 +297,8 @@ def gen_module_uid(rng, nparts=None):
     n = nparts or rng.choice([2, 3, 4])
     u = {"name": rng.choice(["nodejs", "postgresql", "python36", "perl-DBI", "container-tools", "a.b_c+d"]),
          "stream": rng.choice(["10", "9.6", "rhel8", "1.0-beta", "master"]),
-         "version": rng.choice(["8010020190612143724", "20180816142114", "1"]) if n >= 3 else "",
-         "context": rng.choice(["6c81f848", "cdc1202b", "a"]) if n >= 4 else ""}
+         "version": rng.choice(["8010020190612143724", "20180816142114", "1", "rawhide", "el8.1", "0", "1-2", "v3"]) if n >= 3 else "",
+         "context": rng.choice(["6c81f848", "cdc1202b", "a", "0", "123", "x86_64", "9.9"]) if n >= 4 else ""}
     s = "%s:%s" % (u["name"], u["stream"])
     if n >= 3:
         s += ":" + u["version"]
